@@ -1,4 +1,5 @@
 import Rangers.Proofs.C13G1Recover
+import Rangers.Proofs.C13G1Bridge
 import Rangers.Drive.C13
 import Mathlib.Data.List.Dedup
 /-!
@@ -44,6 +45,22 @@ theorem g1_model_is_group_law :
     (∀ a k, Valid1 a → Valid1 (G1.mul bnCurve a k) ∧ μ (G1.mul bnCurve a k) = k • μ a) ∧
     (∀ a b, Valid1 a → Valid1 b → μ a = μ b → a = b) :=
   ⟨g1_add_law, g1_double_law, fun a k ha => g1_mul_law a ha k, μ_inj⟩
+
+/-- **g1_models_agree**: the C13 model (`Model.G1` at the bn256 parameters — extended-Euclid inverse,
+    `testBit` scalar loop, `padLeft ∘ natToBE` encoding) and the C14 model (`Model.Bls14.Pt` — Fermat
+    inverse, bit-list scalar loop, `beFixed` encoding) are the same functions on valid points:
+    negation, doubling, addition, the on-curve test (C14 builder's `Proofs/Bls14BridgeC13.lean`),
+    scalar multiplication and `Marshal` (here). So each property's correspondence run also ties the
+    other property's model to `bn256.G1`. -/
+theorem g1_models_agree :
+    (∀ p : Pt, G1.neg bnCurve (conv p) = conv p.neg) ∧
+    (∀ p : Pt, p.reduced = true → G1.double bnCurve (conv p) = conv p.double) ∧
+    (∀ p q : Pt, p.reduced = true → q.reduced = true → G1.add bnCurve (conv p) (conv q) = conv (p.add q)) ∧
+    (∀ x y : Nat, G1.isOnCurve bnCurve (.aff x y) = onCurveXY x y) ∧
+    (∀ (p : Pt) (k : Nat), Valid p → k < 2 ^ 512 → G1.mul bnCurve (conv p) k = conv (Pt.mul p k)) ∧
+    (∀ p : Pt, p.reduced = true → G1.marshal (conv p) = g1Marshal p) :=
+  ⟨c13_neg, c13_double, c13_add, c13_isOnCurve, fun p k hv hk => mul_models_agree p hv k hk,
+   marshal_models_agree⟩
 
 omit hp in
 /-- non-vacuity: the generator `(1, p−2)` and infinity are valid points. -/
